@@ -500,6 +500,10 @@ func (x *Exec) run() {
 	if sig.Recv() != nil {
 		x.recv = sig.Recv()
 		bindParam(sig.Recv(), sig.Recv().Name())
+		if _, isPtr := sig.Recv().Type().Underlying().(*types.Pointer); isPtr {
+			st.add(Neq(x.scalar(st.vars[sig.Recv()]), IntC(0)))
+			x.assumes["method receivers are non-nil pointers"] = true
+		}
 	}
 	nslice := 0
 	for i := 0; i < sig.Params().Len(); i++ {
@@ -539,7 +543,7 @@ func (x *Exec) run() {
 	x.entry = st
 	for _, l := range x.c.Lets {
 		v, t := x.cexpr(l.C.Expr, x.cctx(st, l.C))
-		st.ghosts[l.Name] = v
+		st.ghosts[l.Name] = x.nameLet(st, l.Name, v)
 		x.ghostTypes[l.Name] = t
 	}
 	var reqs []*Term
